@@ -269,18 +269,61 @@ def check_handover(ctx, cfg):
     return n
 
 
+def check_release_taken_up(ctx, cfg):
+    """C16.R: a block whose owner gives it up (Box::into_raw / Box::leak) is taken up again - Box::from_raw, Vec::from_raw_parts, dealloc - on EVERY
+    path to a normal return, or the pointer is part of what is returned; otherwise nobody owns the block after the return and it stays
+    allocated for ever. Judged per return path of the body with its private helpers expanded (C16.P is the converse: every adoption has a source)."""
+    from ..segmap import path_calls
+    from ..ownership import find_in
+    rule = "C16.R"
+    db = ctx.db(cfg)
+    n = 0
+    gives_up = lambda fn: (fn.endswith("::into_raw") or fn.endswith("::leak") or fn.endswith("::into_raw_with_allocator")) and "Box::<T" in fn
+    takes_up = lambda fn: ("Box::<T" in fn and (fn.endswith("::from_raw") or fn.endswith("::from_raw_in"))) or fn in VEC_ADOPT or fn == "alloc::alloc::dealloc"
+    for b in db.bodies:
+        if b["kind"] not in ("Fn", "AssocFn") or ctx.is_helper(cfg, b):
+            continue
+        b2 = ctx.inlined(db, b)
+        if not any(t["term"]["k"] == "call" and t["term"]["f"].get("k") == "fn" and gives_up(t["term"]["f"]["def"]) for t in b2["mir"]["blocks"]):
+            continue
+        at = ctx.analysis_inl(cfg, b["key"], split=True)
+        bad, und, sites = [], [], set()
+        for r in at.returns:
+            calls = path_calls(at, r)
+            if calls is None:
+                und.append("return at bb%d: path not unique" % r["bb"])
+                continue
+            for i, s_ in enumerate(calls):
+                if not gives_up(s_.fn) or s_.ret is None or s_.ret[0] != "P":
+                    continue
+                sites.add((s_.at, at.blocks[s_.bb].get("split_of", s_.bb)))
+                base = s_.ret[1]
+                later = calls[i + 1:]
+                taken = any(takes_up(f.fn) and f.args and f.args[0][0] == "P" and f.args[0][1] == base for f in later)
+                escapes = bool(find_in(r["val"], lambda t: isinstance(t, tuple) and len(t) == 4 and t[0] == "P" and t[1] == base))
+                if not (taken or escapes):
+                    bad.append("the block given up by %s at %s is neither taken up again nor returned on the path returning %s" % (s_.fn.split("::")[-1], s_.at, vstr(r["val"])[:80]))
+        st = REFUTED if bad else (UNKNOWN if und else PROVED)
+        ctx.ob(rule, b["key"], st, "; ".join(sorted(set(bad + und))) if (bad or und) else
+               "%d site(s) where a Box gives its block up: on every return path after them the block is adopted again (from_raw / from_raw_parts / dealloc) or returned" % len(sites), at=b["at"], cfg=cfg, frozen=False)
+        n += 1
+    return n
+
+
 def check(ctx):
     ctx.explanation = EXPLANATION
     ctx.trusted = ["Box / Vec allocate, free and report allocation failure correctly (Box::new_uninit calls handle_alloc_error; zero-size Boxes never touch the allocator)",
                    "C01: size/alignment of GenericArray<T, N>"]
     ctx.assumptions = ["what a real allocator does on failure needs execution and is outside the claim; the static content is the missing/present null branch"]
-    cfgs = ["F1"] if ctx.tier == "quick" else ["F1", "F2"]
+    cfgs = ["F1", "F1N"] if ctx.tier == "quick" else ["F1", "F1N", "F2", "F2N"]
     ctx.need(*cfgs)
     for cfg in cfgs:
         check_raw_sites(ctx, cfg)
         check_fixture(ctx, cfg)
         n = check_handover(ctx, cfg)
         ctx.floor("C16.P", "raw ownership hand-overs (%s)" % cfg, n, 1)
+        nr = check_release_taken_up(ctx, cfg)
+        ctx.floor("C16.R", "functions in which a Box gives its block up (%s)" % cfg, nr, 1)
         # closure panics in boxed map / zip: trait-default bodies over Vec / Box iterators: no raw state (C15.K / C08.R)
         from . import c04
         c04.check_raw_writes(ctx, cfg)
